@@ -511,16 +511,25 @@ class Interp:
             m.ns[st.name] = self.make_func(st, m, m.env, None)
         elif isinstance(st, (ast.Assign, ast.AnnAssign, ast.If, ast.Expr, ast.Delete, ast.Try, ast.For, ast.While, ast.With,
                              ast.AugAssign, ast.Assert, ast.Pass)):
-            if isinstance(st, ast.Expr):
-                return  # docstrings / side-effect calls at import are ignored in the prototype
+            if isinstance(st, ast.Expr) and not isinstance(st.value, ast.Call):
+                return  # docstrings and other value-less expression statements
             if isinstance(st, ast.Delete):
+                return
+            if isinstance(st, ast.Expr):
+                # a call made for its side effect at import (filling a registry, patching a table): executed when it can be modelled,
+                # otherwise skipped (whatever it would have set up fails closed when used)
+                saved = self.steps
+                try:
+                    self.exec_stmt(st, m.env, m)
+                except (AnalysisError, PyRaise, TypeError, AttributeError, KeyError, ValueError, IndexError):
+                    pass
                 return
             try:
                 self.exec_stmt(st, m.env, m)
             except AnalysisError:
                 pass  # unneeded module constants may be un-evaluable; they fail when used
             except PyRaise:
-                if not isinstance(st, (ast.Try, ast.For, ast.While, ast.With, ast.AugAssign, ast.Assert)):
+                if not isinstance(st, (ast.Try, ast.For, ast.While, ast.With, ast.AugAssign, ast.Assert, ast.Expr)):
                     raise
         else:
             raise AnalysisError(f"top-level {type(st).__name__} in {m.name}")
@@ -585,6 +594,22 @@ class Interp:
         f.unknown_deco = unknown
         f.memo = {} if memo else None
         f.is_gen = _is_generator(node)
+        if unknown is not None:
+            # a decorator this model has no special meaning for: apply it the way Python does (f = deco(f)), e.g. a registry decorator
+            # that records f in a module-level table at import and returns it
+            try:
+                val = f
+                f.unknown_deco = None
+                for d in reversed(node.decorator_list):
+                    u = ast.unparse(d)
+                    if (u in ("property", "classmethod", "staticmethod") or u.endswith("cached_property") or "lru_cache" in u
+                            or u.split("(")[0].split(".")[-1] in ("cache", "overload", "final", "override", "no_type_check")
+                            or u.endswith("abstractmethod") or u.endswith(".setter")):
+                        continue
+                    val = self.call(self.eval(d, env, m), [val], {})
+                return val
+            except (AnalysisError, PyRaise):
+                f.unknown_deco = unknown
         return f
 
     def make_class(self, node, m, env):
@@ -595,6 +620,7 @@ class Interp:
             bases.append(bv)
         dc = None
         total = False
+        generic_decos = []
         for d in node.decorator_list:
             u = ast.unparse(d)
             if "dataclass" in u:
@@ -610,7 +636,7 @@ class Interp:
             elif u.split("(")[0].split(".")[-1] in ("final", "runtime_checkable"):
                 pass
             else:
-                raise AnalysisError(f"class decorator {u}")
+                generic_decos.append(d)
         if any(isinstance(b, External) and b.name == "NamedTuple" for b in bases):
             dc = {"eq": True, "frozen": True, "init": True, "order": True, "namedtuple": True}
         ci = ClassInfo(node.name, m, node, bases, {}, dc)
@@ -674,7 +700,11 @@ class Interp:
                 pass
             else:
                 raise AnalysisError(f"class body {type(st).__name__} in {node.name}")
-        return ci
+        val = ci
+        for d in reversed(generic_decos):
+            # a class decorator without a special meaning here (e.g. one that registers the class in a module-level table): cls = deco(cls)
+            val = self.call(self.eval(d, env, m), [val], {})
+        return val
 
     # ------------------------------------------------------------------ statements
     def exec_block(self, stmts, env, m):
@@ -965,6 +995,8 @@ class Interp:
             idx = self.eval(tg.slice, env, m)
             if isinstance(obj, dict):
                 idx = self.dkey(obj, idx)
+            elif not isinstance(obj, (list, AObj, collections.deque)):
+                raise AnalysisError(f"item assignment on {type(obj).__name__}")
             elif isinstance(obj, AObj):
                 r, _ = obj.cls.lookup("__setitem__")
                 if r is MISSING:
